@@ -577,7 +577,7 @@ func sysName(p PSet) string { return "version-sm[" + p.String() + "]" }
 func Run(r *mc.Run) {
 	r.Level = "model_checking"
 	r.Rule = "BFS over (header version tuple, ghost proposal record) states; the successors of a state are ALL candidate headers over the finite domains CurrVersion{1,2,3} x NextVersion{0,2,3} x NextApprovals x NextVoteBefore x NextSwitchOn (dom=full: approvals 0..R, round fields 0..R+rounds+maxwait+1; dom=rel, for a header at round n: approvals 0..min(n+1, rounds+maxwait+2), round fields 0..n+rounds+maxwait+1) that the real core.VerifyYouVersionState accepts after it (evaluations = verifier calls); a state is distinct by its full key (parameter set, round, header fields, ghost fields); in every reached state core.ProcessYouVersionState's header is offered to the verifier too"
-	installCritHook()
+	r.Rule += "; PART 2 (real block builder): BFS (states de-duplicated on the head's version tuple) over all block histories of length <= R on a real chain (core.BlockChain + staking + core.TxPool) whose table lets version 5 upgrade to 6 and 6 to 7, every block built either by the REAL miner worker (W: commitNewWork + mine/postSeal through the hook miner.VerifBuildAndSealBlock) or by an honest proposer that does not know the proposed version (N: carries, clears, switches, never approves); for every W block: VerifyYouVersionState(true parent, worker header) accepts, the worker header's version fields equal ProcessYouVersionState(true parent) and the harness' own model of the honest builder, and an independent follower node imports the block with InsertChain"
 	sets := quickSets()
 	if r.Quick() {
 		r.SetBudget(150e9)
@@ -588,10 +588,22 @@ func Run(r *mc.Run) {
 	if v, err := strconv.Atoi(os.Getenv("VERIF_BUDGET_S")); err == nil && v > 0 {
 		r.SetBudget(time.Duration(v) * time.Second) // testing aid: shorter/longer internal deadline
 	}
+	// part 2 first: cheap, and it installs the chain harness' own Crit hook, which part 1 replaces below
+	if os.Getenv("VERIF_C12_NO_WORKER") == "" {
+		t0 := time.Now()
+		runWorkerChains(r)
+		// part 2 has its own time cap (60 s quick, 8 min thorough); part 1 keeps the budget it had before part 2 existed
+		r.SetExtra("worker_chain_wall_s", time.Since(t0).Seconds())
+		if !r.Deadline.IsZero() {
+			r.Deadline = r.Deadline.Add(time.Since(t0))
+		}
+	}
+	installCritHook()
 	r.Assume("MinUpgradeWaitRounds >= 1 (no shipped table uses 0; with 0 window close and switch can be the same round)")
 	r.Assume("header numbers increase by one (checked elsewhere by the header verifier); genesis = round 0, version 1, no proposal")
 	r.Assume("exploration horizon R = 2*(rounds+maxwait)+3 rounds per parameter set; candidate field domains as in the rule")
 	r.Assume("logging.Crit (os.Exit) is turned into a recorded outcome through the verif hook logging.VerifCritHook: a switch to a locally unknown version halts the node and has no successor state")
+	r.Assume("part 2: the parameter sets with known=both only (the worker under test is the up-to-date client; outdated peers are the N blocks); horizon R as in part 1 (two complete upgrades 5->6->7 plus slack); blocks carry no transactions; the worker's header Time comes from the wall clock and is not compared")
 	var names []string
 	done := 0
 	for _, p := range sets {
@@ -620,6 +632,10 @@ func Run(r *mc.Run) {
 
 // Replay re-executes a replay file without the explorer.
 func Replay(r *mc.Run, v *mc.Violation) {
+	if strings.HasPrefix(v.System, "worker-chain[") {
+		replayWorkerChain(r, v)
+		return
+	}
 	installCritHook()
 	p, err := parsePSet(v.Config)
 	if err != nil {
